@@ -1,0 +1,27 @@
+"""Stage-boundary tracing hooks used by external verification tooling.
+
+The hooks are inert unless the environment variable ``UFO2FT_VERIF=1`` is set
+*and* a tracer callable has been installed with :func:`set_tracer`. They never
+change the behaviour of the library: ``emit`` only hands live objects to the
+tracer, which is expected to project (not modify) them.
+"""
+
+import os
+
+_ENABLED = os.environ.get("UFO2FT_VERIF") == "1"
+_tracer = None
+
+
+def set_tracer(tracer):
+    """Install (or remove, with None) the tracer callable ``tracer(event, fields)``."""
+    global _tracer
+    _tracer = tracer
+
+
+def enabled():
+    return _ENABLED and _tracer is not None
+
+
+def emit(event, **fields):
+    if _ENABLED and _tracer is not None:
+        _tracer(event, fields)
